@@ -3,6 +3,12 @@ edits other than the seeds themselves (must be reported by the named rule)."""
 CP = "aiohttp/client_proto.py"
 PL = "aiohttp/payload.py"
 RD = "aiohttp/_websocket/reader_py.py"
+HP = "aiohttp/http_parser.py"
+ST = "aiohttp/streams.py"
+CJ = "aiohttp/cookiejar.py"
+HL = "aiohttp/helpers.py"
+WP = "aiohttp/web_protocol.py"
+RQ = "aiohttp/client_reqrep.py"
 
 
 def B(id, file, old, new, expect, why, props, count=1):
@@ -67,6 +73,35 @@ CASES = [
  E("spawn-helper-extracted", "benign", [{"file": WW, "old": SPAWN_OLD, "new": SPAWN_NEW}, {"file": WW, "old": HELPER_AT, "new": HELPER + HELPER_AT}], "extract-method of the task/shield code", ("C11", "C13")),
  E("spawn-helper-lazy", "breaking", [{"file": WW, "old": SPAWN_OLD, "new": SPAWN_NEW}, {"file": WW, "old": HELPER_AT, "new": HELPER_LAZY + HELPER_AT}], "the extracted helper starts the send task lazily: close() overtakes a frame that passed the closing test", ("C11",), ["C11.closing"]),
  E("spawn-helper-noshield", "breaking", [{"file": WW, "old": SPAWN_OLD, "new": SPAWN_NEW}, {"file": WW, "old": HELPER_AT, "new": HELPER_NOSHIELD + HELPER_AT}], "the extracted helper awaits the task without shield: a cancelled sender cancels compress-and-send half way", ("C11",), ["C11.shield"]),
+ # ---- C08.flow: pausing through a helper (the refactoring part of seed C08-6) ---------------------------------------------------------------------
+ E("pause-helper-extracted", "benign", [{"file": ST, "old": "        if self._size > self._high_water:\n            self._protocol.pause_reading()\n        return False\n", "new": "        if self._size > self._high_water:\n            self._pause_reading()\n        return False\n"},
+   {"file": ST, "old": "        if len(self._http_chunk_splits) > self._high_water_chunks:\n            self._protocol.pause_reading()\n", "new": "        if len(self._http_chunk_splits) > self._high_water_chunks:\n            self._pause_reading()\n"},
+   {"file": ST, "old": "    async def _wait(self, func_name: str) -> None:\n", "new": "    def _pause_reading(self) -> None:\n        self._protocol.pause_reading()\n\n    async def _wait(self, func_name: str) -> None:\n"}], "both pause sites call a one-line helper", ("C08",)),
+ B("resume-only-own-pause", ST, "            and (not self._size or self._size < self._low_water)\n", "            and (not self._size or (self._protocol._reading_paused and self._size < self._low_water))\n", ["C08.flow"], "below the low-water mark reading is resumed only under a further condition", ("C08",)),
+ # ---- C11.frame.atomic -----------------------------------------------------------------------------------------------------------------------------
+ B("frame-split-fastpath", WW, "            # Non-compressed frames don't need lock or shield\n            self._write_websocket_frame(message, opcode, 0)\n", "            self._write_websocket_frame(message[:0], opcode, 0)\n            if self.protocol._paused:\n                await self.protocol._drain_helper()\n            self.transport.write(bytes(message))\n", ["C11.frame.atomic"], "header and payload of one frame are written on both sides of a wait for the transport, without the lock", ("C11",)),
+ # ---- C18.readtimer -----------------------------------------------------------------------------------------------------------------------------
+ B("readtimer-running-only", CP, "        if data:\n            self._reschedule_timeout()\n", "        if data and self._read_timeout_handle is not None:\n            self._reschedule_timeout()\n", ["C18.readtimer"], "received bytes only push a running timer back: an early answer during an upload never starts sock_read", ("C18",)),
+ # ---- C03.partial -----------------------------------------------------------------------------------------------------------------------------
+ B("partial-state-only", HP, "                    tail = data[start_pos:]\n", "                    tail = data[start_pos:]\n                    if self._should_close:\n                        raise BadHttpMessage(\"Data after `Connection: close`\")\n", ["C03.partial"], "the seed itself, as a substitution", ("C03",)),
+ N("partial-state-and-bytes", HP, "                    tail = data[start_pos:]\n", "                    tail = data[start_pos:]\n                    if self._should_close and tail.strip(b\"\\r\\n\"):\n                        raise BadHttpMessage(\"Data after `Connection: close`\")\n", "early refusal of bytes that are not a line ending after a closing message: every completion is refused by the complete-line path too", ("C03",)),
+ N("partial-too-many-early", HP, "                    tail = data[start_pos:]\n", "                    tail = data[start_pos:]\n                    if len(self._lines) >= self.max_headers:\n                        raise BadHttpMessage(\"Too many headers received\")\n", "state-only early refusal that equals the complete-line outcome (one more line is one too many whatever it says); the rule cannot relate the two forms and stays silent", ("C03",)),
+ B("partial-unrelated-state", HP, "                    tail = data[start_pos:]\n", "                    tail = data[start_pos:]\n                    if self._msg_in_flight > 8:\n                        raise BadHttpMessage(\"Too many requests in flight\")\n", ["C03.partial"], "a partial line is refused on state that no complete line is refused on", ("C03",)),
+ # ---- C10.regex.linear -------------------------------------------------------------------------------------------------------------------------
+ B("regex-nested-token", HP, 'TOKENRE: Final[Pattern[str]] = re.compile(f"[0-9A-Za-z{_TCHAR_SPECIALS}]+")', 'TOKENRE: Final[Pattern[str]] = re.compile(f"(?:[0-9A-Za-z]+|[{_TCHAR_SPECIALS}])+")', ["C10.regex.linear"], "a method/header-name token matched as runs inside a repetition: exponential on a long name followed by a separator", ("C10",)),
+ # ---- C16.persist.own --------------------------------------------------------------------------------------------------------------------------
+ N("persist-own-local", CJ, "                if (exp := self._expirations.get((domain, path, name))) is not None:\n                    morsel_data[\"expires_timestamp\"] = exp\n", "                deadline = self._expirations.get((domain, path, name))\n                if deadline is not None:\n                    morsel_data[\"expires_timestamp\"] = deadline\n", "deadline in a local", ("C16",)),
+ B("persist-own-maxage-only", CJ, "                if (exp := self._expirations.get((domain, path, name))) is not None:\n", "                if morsel[\"max-age\"] and (exp := self._expirations.get((domain, path, name))) is not None:\n", ["C16.persist.own"], "the deadline is saved only for cookies that still carry Max-Age: lost on the second save of a restored jar", ("C16",)),
+ B("persist-own-hostonly-domain", CJ, "                if (domain, path, name) in self._host_only_cookies:\n", "                if not morsel[\"domain\"] and (domain, path, name) in self._host_only_cookies:\n", ["C16.persist.own"], "the host-only flag is saved depending on a morsel attribute", ("C16",)),
+ # ---- C19.cd.pct ---------------------------------------------------------------------------------------------------------------------------------
+ N("cd-pct-keyword", HL, "                    qval = quote(val, \"\", encoding=_charset)\n", "                    qval = quote(val, safe=\"\", encoding=_charset)\n", "safe passed by keyword", ("C19",)),
+ B("cd-pct-default-safe", HL, "                    qval = quote(val, \"\", encoding=_charset)\n", "                    qval = quote(val, encoding=_charset)\n", ["C19.cd.pct"], "urllib's default safe='/' leaves the slash the reader strips", ("C19",)),
+ B("cd-pct-safe-colon", HL, "                            (_charset, \"''\", quote(val, \"\", encoding=_charset))\n", "                            (_charset, \"''\", quote(val, \":\", encoding=_charset))\n", ["C19.cd.pct"], "`:` is not a token character: the reader drops the extended parameter", ("C19",)),
+ # ---- C20.accept.queue ----------------------------------------------------------------------------------------------------------------------------
+ N("accept-queue-split", WP, "            if self._keepalive and not self._close and not self._force_close:\n", "            if self._close:\n                break\n            if self._keepalive and not self._force_close:\n", "the close test as a separate early exit", ("C20",)),
+ B("accept-queue-drain", WP, "            if self._keepalive and not self._close and not self._force_close:\n", "            if self._keepalive and not (self._close and not self._messages) and not self._force_close:\n", ["C20.accept.queue"], "a closing connection goes on serving what is queued", ("C20",)),
+ # ---- C06.key ------------------------------------------------------------------------------------------------------------------------------------
+ B("key-proxy-conditional", RQ, "                self._ssl,\n                self.proxy,\n", "                self._ssl,\n                self.proxy if self.proxy_auth is None else None,\n", ["C06.key"], "the proxy leaves the key for authenticated proxies", ("C06",)),
  # ---- C06.idle.input ------------------------------------------------------------------------------------------------------------------------
  N("idle-input-swapped", CP, IDLE, "        if self.idle and data:\n", "operands of the gate swapped", ("C06",)),
  N("idle-input-nested", CP, IDLE + "            # Nobody asked", "        if self.idle:\n          if data:\n            # Nobody asked", "nested form of the gate", ("C06",)),
